@@ -50,6 +50,15 @@ Definition count_spaces_after_last_newline (s : str) (i : N) : res N :=
       Ok (N.of_nat (length (take_while (fun c => c =? SP) tail)))
   end.
 
+(* does anything but blanks precede position i on its line? *)
+Definition shares_line (s : str) (i : N) : bool :=
+  match split_at_byte s i with
+  | None => false
+  | Some (pre, _) =>
+      let tail := match after_last_lf pre None with Some tail => tail | None => pre end in
+      negb (forallb (fun c => c =? SP) tail)
+  end.
+
 (* get_node_cover_range_impl: first node in post-order that covers [rs, re) and is a Markup, Expr or Pattern *)
 Definition mode_of_kind (k : kind) (m : lmode) : lmode :=
   match k with KMarkup => LMarkup | KCodeBlock => LCode | KEquation => LMath | _ => m end.
@@ -58,23 +67,27 @@ Definition mode_of_kind (k : kind) (m : lmode) : lmode :=
 Definition coverable (t : tree) : bool :=
   negb (kind_eqb (kind_of t) KParbreak) && (kind_eqb (kind_of t) KMarkup || is_expr t || is_pattern t).
 
-(* the result also carries the kind of the node's parent (None for the root) *)
-Fixpoint cover (t : tree) (off : N) (m : lmode) (parent : option kind) (rs re : N) : option (tree * N * lmode * option kind) :=
-  let m' := mode_of_kind (kind_of t) m in
-  let self := if (off <=? rs) && (re <=? off + byte_size t) && coverable t then Some (t, off, m', parent) else None in
+(* the result also carries the kind of the node's parent (None for the root); the mode travels with the flag
+   "some strict ancestor is a Math node" (everything below a Math node is laid out with breaks suppressed).
+   In math, the child after a Hash is code (convert_math). *)
+Definition cmode : Type := lmode * bool.
+Fixpoint cover (t : tree) (off : N) (mb : cmode) (parent : option kind) (rs re : N) : option (tree * N * cmode * option kind) :=
+  let m' := mode_of_kind (kind_of t) (fst mb) in
+  let self := if (off <=? rs) && (re <=? off + byte_size t) && coverable t then Some (t, off, (m', snd mb), parent) else None in
   match t with
   | Leaf _ _ _ => self
   | Inner k cs _ =>
-      let fix go (cs : list tree) (o : N) : option (tree * N * lmode * option kind) :=
+      let bm' := snd mb || kind_eqb k KMath in
+      let fix go (cs : list tree) (o : N) (after_hash : bool) : option (tree * N * cmode * option kind) :=
         match cs with
         | [] => None
         | c :: rest =>
-            match cover c o m' (Some k) rs re with
+            match cover c o ((if after_hash && is_math_mode m' then LCode else m'), bm') (Some k) rs re with
             | Some r => Some r
-            | None => go rest (o + byte_size c)
+            | None => go rest (o + byte_size c) (kind_eqb (kind_of c) KHash)
             end
         end in
-      match go cs off with
+      match go cs off false with
       | Some r => Some r
       | None => self
       end
@@ -86,7 +99,7 @@ Definition range_node (t : tree) (a b : N) : option tree :=
   let len := byte_len s in
   match trim_range s (N.min a len) (N.min b len) with
   | Ok (rs, re) =>
-      match cover t 0 LMarkup None rs (N.min re len) with
+      match cover t 0 (LMarkup, false) None rs (N.min re len) with
       | Some (node, _, _, _) => Some node
       | None => None
       end
@@ -108,13 +121,13 @@ Section Partial.
     match trim_range s (N.min a len) (N.min b len) with
     | Panic p => RPanic p
     | Ok (rs, re) =>
-        match cover t 0 LMarkup None rs (N.min re len) with
+        match cover t 0 (LMarkup, false) None rs (N.min re len) with
         | None => RErr
-        | Some (node, off, mode, parent) =>
+        | Some (node, off, (mode, below_math), parent) =>
             if erroneous node then RErr
             else
               (* everything below a Math node is laid out with breaks suppressed (convert_math) *)
-              let c := mk_ctx mode (is_math_mode mode && negb (kind_eqb (kind_of node) KEquation)) in
+              let c := mk_ctx mode below_math in
               let bundle := build swidth cfg (annotate node) in
               let m :=
                 if kind_eqb (kind_of node) KMarkup then call bundle (RMarkup c ScDocument)
@@ -131,7 +144,7 @@ Section Partial.
                   match count_spaces_after_last_newline s off with
                   | Panic p => RPanic p
                   | Ok indent0 =>
-                      let in_item := kind_eqb (kind_of node) KMarkup &&
+                      let in_item := kind_eqb (kind_of node) KMarkup && shares_line s off &&
                                      match parent with
                                      | Some KListItem | Some KEnumItem | Some KTermItem => true
                                      | _ => false
